@@ -446,3 +446,60 @@ theorem C04_resolves (cs : List (Check α)) (hwf : WellFormed cs) (l : Level) (v
         rw [r_b i hi, r_r i hi]; simp [pickRestricted]
 end PSA
 
+
+namespace PSA
+variable {α : Type}
+
+/-- the newest registered version of a well-formed set is the unset zero value (no checks) or a `v1.M` -/
+theorem maxVersionOf_shape (cs : List (Check α)) (hwf : WellFormed cs) :
+    maxVersionOf cs = .unset ∨ ∃ M, maxVersionOf cs = .mm 1 M := by
+  cases cs with
+  | nil => exact Or.inl rfl
+  | cons c0 rest =>
+    have hlast : ∀ x ∈ c0 :: rest, x.lastMin = .mm 1 x.lastMinor := fun x hx =>
+      lastMin_of_wf x (hwf.nonempty x hx) (hwf.major x hx)
+    exact Or.inr ⟨_, maxVersionOf_cons c0 rest hlast⟩
+
+/-- **A later major version is newer than every registered revision**: it behaves as the newest registered version. -/
+theorem C04_later_major (cs : List (Check α)) (hwf : WellFormed cs) (l : Level) (a n : Nat) (ha : 1 < a) :
+    (populate cs).evaluate l (.mm a n) = (populate cs).evaluate l .latest := by
+  have hmv : (populate cs).maxVersion = maxVersionOf cs := rfl
+  rcases maxVersionOf_shape cs hwf with hu | ⟨M, hM⟩
+  · simp only [Registry.evaluate, hmv, hu, Ver.unset, Ver.older]
+    have : (0 : Nat) ≠ a := by omega
+    have hpos : 0 < a := by omega
+    simp [this, hpos]
+  · simp only [Registry.evaluate, hmv, hM, Ver.older]
+    have : (1 : Nat) ≠ a := by omega
+    simp [this, ha]
+
+/-- **An earlier major version is older than every registered revision**: nothing was introduced yet, nothing runs. -/
+theorem C04_earlier_major (cs : List (Check α)) (hwf : WellFormed cs) (l : Level) (n : Nat) :
+    (populate cs).evaluate l (.mm 0 n) = [] := by
+  have hmv : (populate cs).maxVersion = maxVersionOf cs := rfl
+  have hnot : ∀ (lo hi : Ver) (k : Nat), lo = .mm 1 0 → Ver.mm 0 k ∉ vrange lo hi := by
+    intro lo hi k hlo
+    subst hlo
+    cases hi with
+    | latest => simp [vrange]
+    | mm c d =>
+      simp only [vrange]
+      split
+      · simp
+      · simp
+  cases l with
+  | privileged => rfl
+  | baseline =>
+    rcases maxVersionOf_shape cs hwf with hu | ⟨M, hM⟩
+    · simp only [Registry.evaluate, hmv, hu, Ver.unset, Ver.older, populate]
+      split <;> simp [hnot, vrange, nextMinor, hu, Ver.unset]
+    · simp only [Registry.evaluate, hmv, hM, Ver.older, populate]
+      simp [hnot]
+  | restricted =>
+    rcases maxVersionOf_shape cs hwf with hu | ⟨M, hM⟩
+    · simp only [Registry.evaluate, hmv, hu, Ver.unset, Ver.older, populate]
+      split <;> simp [hnot, vrange, nextMinor, hu, Ver.unset]
+    · simp only [Registry.evaluate, hmv, hM, Ver.older, populate]
+      simp [hnot]
+
+end PSA
